@@ -27,4 +27,11 @@ theorem remaining_rows : ∀ fd ∈ funcTable,
 theorem model_unescape_rules : (Mp.unescapeRules.map (fun r => (r.1.toNat, r.2.toNat))).Perm rulesOfUnescape := by decide
 theorem model_escape_rules : (Mp.byteRules.map (fun r => (r.1.toNat, r.2.toNat))).Perm rulesOfEscape := by decide
 
+/-! axiom audit (one line per theorem: a theorem that no longer checks is missing from the output) -/
+#print axioms boolean_rows_covered
+#print axioms number_rows_covered
+#print axioms string_rows_covered
+#print axioms remaining_rows
+#print axioms model_unescape_rules
+#print axioms model_escape_rules
 end Mp.FactChecks
